@@ -49,6 +49,8 @@ SharedP == [parameters |-> Mk(<<>>, [N_1 |-> QParam("filter", "query")]), defini
             securityDefinitions |-> Mk(<<>>, [k1 |-> SecDef("X-1")])]
 
 PRef(pr) == IF pr THEN ("$ref" :> <<"root", "x-shared", "items">>) ELSE <<>>
+\* ... and the $ref resolves (to a path item kept under a root-level extension): Flatten will bring its operation in
+XShared(pr) == IF pr THEN ("x-shared" :> Mk(<<>>, [items |-> Mk(<<>>, [options |-> OpN([operationId |-> "shared"], <<>>)])])) ELSE <<>>
 Docs ==
   CASE Family = "media" ->
          { Base((IF dc = <<>> THEN <<>> ELSE [consumes |-> dc]) @@ (IF dp = <<>> THEN <<>> ELSE [produces |-> dp]),
@@ -61,7 +63,7 @@ Docs ==
            : m \in Methods, os \in SecOp, ds \in BOOLEAN, sd \in {"none", "some", "all"} }
     [] Family = "ops" ->
          \* pr: the first path item ALSO carries a $ref (its own operations are operations of the document all the same)
-         { Base(<<>>, PathsOf(IF same THEN ("P_1" :> Mk(PRef(pr), (m1 :> OpN(IF i1 = "" THEN <<>> ELSE [operationId |-> i1], <<>>)) @@ (m2 :> OpN(IF i2 = "" THEN <<>> ELSE [operationId |-> i2], <<>>))))
+         { Base(<<>>, XShared(pr) @@ PathsOf(IF same THEN ("P_1" :> Mk(PRef(pr), (m1 :> OpN(IF i1 = "" THEN <<>> ELSE [operationId |-> i1], <<>>)) @@ (m2 :> OpN(IF i2 = "" THEN <<>> ELSE [operationId |-> i2], <<>>))))
                                   ELSE ("P_1" :> Mk(PRef(pr), (m1 :> OpN(IF i1 = "" THEN <<>> ELSE [operationId |-> i1], <<>>)))) @@ ("P_2" :> Mk(<<>>, (m2 :> OpN(IF i2 = "" THEN <<>> ELSE [operationId |-> i2], <<>>))))))
            : m1 \in Methods, m2 \in Methods, i1 \in {"", "a"}, i2 \in {"", "a", "b"}, same \in BOOLEAN, pr \in BOOLEAN }
     [] Family = "params" ->
